@@ -67,7 +67,7 @@ def gen_worker(args):
     for i in idxs:
         sd = runner.seed64(base_seed, profile, i)
         del TRIPS[:]
-        g = Gen(sd, profile, [], avoid=())
+        g = Gen(sd, profile, [], overrides={'fork': 0.0}, avoid=())
         w = g.run()
         out.append({'profile': profile, 'idx': i, 'seed': sd, 'cfg': enc(w.cfg), 'events': enc(w.trace),
                     'digest': digest_world(w), 'steps': len(w.steps), 'trips': list(TRIPS), 'abs': runner.abstract_hash(w),
